@@ -544,11 +544,11 @@ func (t *Tree) allTipNamesRecur(names *[]string, n *Node, parent *Node) {
 	// is a tip
 	if len(n.neigh) == 1 {
 		*names = append(*names, n.name)
-	} else {
-		for _, child := range n.neigh {
-			if child != parent {
-				t.allTipNamesRecur(names, child, n)
-			}
+	}
+	// a tip has no other neighbour than its parent, unless it is the root
+	for _, child := range n.neigh {
+		if child != parent {
+			t.allTipNamesRecur(names, child, n)
 		}
 	}
 }
